@@ -107,7 +107,7 @@ partial def loop (h : IO.FS.Stream) (out : IO.FS.Stream) (c : Conf) : IO Unit :=
     | [_, got] =>
       match C16.parseEEnv got with
       | some e =>
-        let bad := C16.checkEParam e
+        let bad := C16.checkEParam e ++ C16.checkFParam { F := e.c.F, K := e.fc.K, kv := e.kv }
         out.putStrLn (if bad.isEmpty then "ok eb_param" else "FAIL S model=[] spec=[" ++ String.intercalate ";" bad ++ "] got=[" ++ got ++ "]")
         loop h out { c with eb := some e, ebCache := [], fb := some { F := e.c.F, K := e.fc.K, kv := e.kv } }
       | none =>
